@@ -98,12 +98,11 @@ def _headers(repo, incs):
     out = []
     for d in incs:
         p = os.path.join(repo, d)
-        if os.path.isdir(p):
-            for fn in sorted(os.listdir(p)):
-                fp = os.path.join(p, fn)
-                if os.path.isfile(fp) and fn.endswith((".h", ".hpp", ".hxx", ".pxd")):
-                    out.append(fp)
-    return out
+        for root, _dirs, files in os.walk(p):
+            for fn in sorted(files):
+                if fn.endswith((".h", ".hpp", ".hxx", ".pxd", ".inc")):
+                    out.append(os.path.join(root, fn))
+    return sorted(out)
 
 
 class StaleCython(Exception):
@@ -225,6 +224,8 @@ def build(flavour="plain", repo=None, only=None, verbose=False):
                 flags += ["-D" + m for m in ext["macros"]]
                 flags += ["-DNPY_NO_DEPRECATED_API=0"]
                 incs = ["-I" + os.path.join(repo, d) for d in ext["inc"]] + ["-I" + py_inc, "-I" + np_inc]
+                # a generated TU unpacked from the fallback archive still includes relative to its home dir
+                incs.append("-I" + os.path.join(repo, os.path.dirname(ext["gen"])))
                 objs = []
                 for i, s in enumerate([gen] + [os.path.join(repo, s) for s in ext["src"]]):
                     o = os.path.join(objdir, "%d_%s.o" % (i, os.path.basename(s)))
